@@ -71,6 +71,7 @@ type ReqSpec struct {
 	Backend   string      `json:"backend,omitempty"`  // proxied through this backend ("" = local)
 	Route     string      `json:"route,omitempty"`    // http: "" (annotated if the method has one) | implicit
 	Round     int         `json:"round,omitempty"`    // registrysim: probe of the round after this many registrar operations (0: not gated)
+	Raw       *RawProbe   `json:"raw,omitempty"`      // C16: a request given by verb and path
 	MD        [][2]string `json:"md,omitempty"`       // extra request metadata
 }
 
@@ -82,6 +83,8 @@ type MuxScenario struct {
 	Local    []string       `json:"local,omitempty"`         // local services (nil: all of localServices; ["-"]: none)
 	SkipRegister bool       `json:"skip_register,omitempty"` // backends are started but not registered (registrysim does it itself)
 	Pre        []RegOp      `json:"pre,omitempty"` // registrations done before any task starts
+	Rules      []RuleSpec   `json:"rules,omitempty"` // service-config HTTP rules of the mux (C16)
+	NoDefaultRules bool     `json:"no_default_rules,omitempty"`
 	Registrars [][]RegOp    `json:"registrars,omitempty"`
 	Sequential bool         `json:"sequential,omitempty"` // probes and registrar operations never overlap
 	Monitor    int          `json:"monitor,omitempty"`    // number of snapshot captures by the monitor task
@@ -110,6 +113,7 @@ type reqState struct {
 	hlog HLog // local handler (or the proxy-side view is not scripted)
 	blog HLog // backend handler, when proxied
 	servedBy []string // tags of the handlers that were entered for this request
+	servedMethods []string // full names of the methods that were entered
 
 	sent        int
 	abortedAt   int // sim step of the abort (-1)
@@ -258,7 +262,18 @@ func (r *reqState) encode() {
 	meth := "POST"
 	major, minor := 2, 0
 	var w []byte
+	switch {
+	case sp.Raw != nil:
+		major, minor = 1, 1
+		meth, path = sp.Raw.Verb, sp.Raw.Path
+		if sp.Raw.HasBody {
+			h.Set("Content-Type", "application/json")
+			w = []byte("{}")
+			r.bounds = []int{len(w)}
+		}
+	}
 	switch sp.Proto {
+	case "raw-done":
 	case "grpc", "grpcweb", "grpcwebtext":
 		ct := map[string]string{"grpc": "application/grpc", "grpcweb": "application/grpc-web", "grpcwebtext": "application/grpc-web-text"}[sp.Proto]
 		if sp.Codec == "json" {
@@ -293,6 +308,9 @@ func (r *reqState) encode() {
 			}
 		}
 	case "http":
+		if sp.Raw != nil {
+			break
+		}
 		if sp.ID%2 == 0 {
 			major, minor = 1, 1
 		}
@@ -377,7 +395,11 @@ func (r *reqState) encode() {
 	if sp.Proto == "http" && r.method.Shape() == "unary" && len(w) == 0 {
 		req.ContentLength = 0
 	}
-	if meth == "GET" && sp.Proto == "http" {
+	if meth == "GET" && sp.Proto == "http" && sp.Raw == nil {
+		req.ContentLength = 0
+		req.Body = http.NoBody
+	}
+	if sp.Raw != nil && !sp.Raw.HasBody {
 		req.ContentLength = 0
 		req.Body = http.NoBody
 	}
@@ -559,12 +581,18 @@ func (nopStats) HandleRPC(context.Context, stats.RPCStats)                      
 func (nopStats) TagConn(ctx context.Context, _ *stats.ConnTagInfo) context.Context { return ctx }
 func (nopStats) HandleConn(context.Context, stats.ConnStats)                       {}
 
-func muxOptions(k *Knobs) []larking.MuxOption {
+func muxOptions(sc *MuxScenario) []larking.MuxOption {
+	k := &sc.Knobs
+	var rules []*annotations.HttpRule
+	if !sc.NoDefaultRules {
+		rules = append(rules, &annotations.HttpRule{Selector: "grpc.testing.TestService.FullDuplexCall", Pattern: &annotations.HttpRule_Custom{Custom: &annotations.CustomHttpPattern{Kind: "websocket", Path: "/v1/ws/duplex"}}, Body: "*"})
+	}
+	for i := range sc.Rules {
+		rules = append(rules, sc.Rules[i].httpRule())
+	}
 	opts := []larking.MuxOption{
 		larking.CompressorOption("gzip", &larking.CompressorGzip{}), // fresh pools per run
-		larking.ServiceConfigOption(&serviceconfig.Service{Http: &annotations.Http{Rules: []*annotations.HttpRule{
-			{Selector: "grpc.testing.TestService.FullDuplexCall", Pattern: &annotations.HttpRule_Custom{Custom: &annotations.CustomHttpPattern{Kind: "websocket", Path: "/v1/ws/duplex"}}, Body: "*"},
-		}}}),
+		larking.ServiceConfigOption(&serviceconfig.Service{Http: &annotations.Http{Rules: rules}}),
 	}
 	if k.MaxRecv > 0 {
 		opts = append(opts, larking.MaxReceiveMessageSizeOption(k.MaxRecv))
@@ -649,7 +677,7 @@ func runMuxScenario(t *testing.T, sc *MuxScenario, tape *core.Tape) *muxRun {
 		defer func() {
 			larking.VerifYield, larking.VerifLockGate, larking.VerifLocked, larking.VerifUnlocked = nil, nil, nil, nil
 		}()
-		mux, err := larking.NewMux(muxOptions(&sc.Knobs)...)
+		mux, err := larking.NewMux(muxOptions(sc)...)
 		if err != nil {
 			mr.setupErr = err
 			return
@@ -687,6 +715,9 @@ func runMuxScenario(t *testing.T, sc *MuxScenario, tape *core.Tape) *muxRun {
 			}
 			name := "r" + strconv.Itoa(sp.ID)
 			rs := &reqState{spec: sp, method: methods[sp.Method], sim: sim, mr: mr, abortedAt: -1}
+			if sp.Raw != nil {
+				rs.method = rawMethodInfo(sp.Raw)
+			}
 			rs.q = newReqIO(sim, sp.ID, name, w)
 			rs.q.zeroReads, rs.q.eofData, rs.q.window = sp.ZeroReads, sp.EOFData, sp.Window
 			rs.q.sync()
